@@ -19,7 +19,8 @@ RULE = ('seeded value generator (ints of any magnitude, floats incl. -0.0/inf/na
 DISTINCT = ('cells',)
 REQUIRED = ('mode_raw', 'mode_binary_file', 'mode_text_file', 'mode_pickle_inline', 'mode_pickle_file',
             'streams', 'rejected_values', 'jsondisk_roundtrips', 'deque_roundtrips', 'index_roundtrips',
-            'fanout_roundtrips', 'push_roundtrips', 'fault_injected_stores')
+            'fanout_roundtrips', 'push_roundtrips', 'fault_injected_stores', 'configs_lookup_in_transaction',
+            'configs_lookup_lock_free')
 ASSUMPTIONS = ('equality oracle: same type, same bits for floats, same code points, same bytes, recursive for containers',
                'JSONDisk is exercised with JSON fixed-point values only (no tuples, non-str dict keys, bytes)')
 
@@ -179,11 +180,18 @@ def read_handle(h):
 
 def run_config(dc, sc, res, rng, T, proto, disk_name, level, budget):
     json_only = disk_name == 'JSONDisk'
-    settings = {'disk_min_file_size': T, 'disk_pickle_protocol': proto, 'eviction_policy': 'none'}
+    # statistics and the LRU / LFU policies move lookups from the lock-free path to the transactional one
+    policy = gen.pick(rng, ['none', 'least-recently-stored', 'least-recently-used', 'least-frequently-used'])
+    stats = rng.random() < 0.4
+    settings = {'disk_min_file_size': T, 'disk_pickle_protocol': proto, 'eviction_policy': policy, 'statistics': stats,
+                'tag_index': rng.random() < 0.3}
+    res.count('configs_lookup_in_transaction' if stats or policy in ('least-recently-used', 'least-frequently-used')
+              else 'configs_lookup_lock_free')
     if json_only:
         settings['disk'] = dc.JSONDisk
         settings['disk_compress_level'] = level
-    cfg_label = {'T': T, 'protocol': proto, 'disk': disk_name, 'compress_level': level if json_only else None}
+    cfg_label = {'T': T, 'protocol': proto, 'disk': disk_name, 'compress_level': level if json_only else None,
+                 'policy': policy, 'statistics': stats}
     d = sc.new()
     cache = dc.Cache(d, **settings)
     obs = observe.Observer(d)
